@@ -31,12 +31,29 @@ Qed.
 (** ---- runs do not depend on what follows the bytes they consume *)
 Lemma ok_run_ext A (m : M A) s items r ys P : incr m -> ok_run m s items r P -> ok_run m (ext s ys) items (r ++ ys) P.
 Proof.
-  intros Hi (tr & s' & a & c & E & Sh & I & R & V & W & Pa).
+  intros Hi (tr & s' & a & c & E & Sh & I & R & V & W & Fr & Pa).
   destruct (Hi _ ys _ _ _ E) as [Hne _]. specialize (Hne ltac:(discriminate)).
   exists tr, (ext s' ys), a, c. split; [exact Hne|]. split; [exact Sh|].
   split; [unfold ext; cbn [inp]; rewrite I, app_assoc; reflexivity|].
   split; [unfold ext; cbn [inp]; rewrite R; reflexivity|].
-  split; [exact V|]. split; [exact W|exact Pa].
+  split; [exact V|]. split; [exact W|]. split; [exact Fr|exact Pa].
+Qed.
+
+(** the frame of a size-prefixed region: size field, fresh constraint announced and listed, payload, closing *)
+Lemma frame_chain s s1 s2 s3 s4 s5 s6 cid :
+  frame s s1 -> frame s1 s2 -> cid = List.length (store s1) ->
+  (forall k, (k <= cid)%nat -> frame_from k s2 s3) -> (forall k, (k <= cid)%nat -> frame_from k s3 s4) ->
+  frame s4 s5 -> (forall k, (k <= cid)%nat -> frame_from k s5 s6) -> frame s s6.
+Proof.
+  intros F1 F2 Hc F3 F4 F5 F6. unfold frame. set (n0 := List.length (store s)).
+  assert (L1 : (n0 <= List.length (store s1))%nat) by (destruct F1 as [L _]; exact L).
+  assert (Hk : (n0 <= cid)%nat) by lia.
+  pose proof (frame_weaken n0 _ _ L1 F2) as F2'. pose proof (F3 n0 Hk) as F3'. pose proof (F4 n0 Hk) as F4'.
+  assert (L4 : (n0 <= List.length (store s4))%nat).
+  { destruct F2' as [La _]. destruct F3' as [Lb _]. destruct F4' as [Lc _]. lia. }
+  pose proof (frame_weaken n0 _ _ L4 F5) as F5'. pose proof (F6 n0 Hk) as F6'.
+  eapply frame_from_trans; [exact F1|]. eapply frame_from_trans; [exact F2'|]. eapply frame_from_trans; [exact F3'|].
+  eapply frame_from_trans; [exact F4'|]. eapply frame_from_trans; [exact F5'|exact F6'].
 Qed.
 
 Lemma incr_dec_ty (T : tables) (abort : bool) t pa sel enc : incr (dec_ty T abort t pa sel enc).
@@ -66,12 +83,12 @@ Proof.
   intros Hs V W I F. destruct (sp_prim_some _ _ _ _ _ _ Hs) as (h & -> & Hl & Hw & -> & ->).
   assert (Hn : blen (h ++ rest) - blen rest = pwidth p) by (unfold blen in *; rewrite app_length; lia).
   rewrite Hn in F.
-  destruct (dec_prim_spec abort p pa h rest s W I ltac:(unfold blen in Hl; lia) Hw ltac:(intros ->; exact V) F) as (s' & E & I' & V' & W').
+  destruct (dec_prim_spec abort p pa h rest s W I ltac:(unfold blen in Hl; lia) Hw ltac:(intros ->; exact V) F) as (s' & E & I' & V' & W' & Fr).
   eexists _, s', (Some (VInt_ (pname p) (from_bytes (psigned p) h))), h.
   split; [exact E|]. split.
   - cbn [items_of]. rewrite <- (app_nil_r (vwarn _ _ _)).
     apply (sh_prim pa p (from_bytes (psigned p) h) h [] []); [unfold blen in Hl; lia|exact Hw|constructor].
-  - split; [exact I|]. split; [exact I'|]. split; [rewrite Hl; exact V'|]. split; [exact W'|reflexivity].
+  - split; [exact I|]. split; [exact I'|]. split; [rewrite Hl; exact V'|]. split; [exact W'|]. split; [exact Fr|reflexivity].
 Qed.
 
 (** ---- counted elements *)
@@ -172,20 +189,20 @@ Section Elems.
     assert (P1 : ok_run (dec_prim abort szp (pchild pa szf)) s (items_of szv) r1 (fun a => a = Some (VInt_ (pname szp) n))).
     { apply (sim_prim abort szp (pchild pa szf) bs szv n r1 s Ep Vs W I).
       replace (blen bs - blen r1) with (pwidth szp) by (rewrite Hbs; unfold blen in *; rewrite app_length; lia). exact F1. }
-    destruct P1 as (tr1 & s1 & a1 & c1 & E1 & Sh1 & Ic1 & I1 & V1 & W1 & ->).
+    destruct P1 as (tr1 & s1 & a1 & c1 & E1 & Sh1 & Ic1 & I1 & V1 & W1 & Fr1 & ->).
     assert (Lc1 : blen c1 = pwidth szp).
     { rewrite I, Hbs in Ic1. apply (f_equal (@List.length Z)) in Ic1. rewrite !app_length in Ic1. unfold blen in *. lia. }
     rewrite Lc1 in V1.
     (* 2. the constraint object, announced and listed *)
-    destruct (new_sc_spec s1 W1) as (s2 & E2 & I2 & L2 & V2 & W2 & Len2 & G2).
+    destruct (new_sc_spec s1 W1) as (s2 & E2 & I2 & L2 & V2 & W2 & Len2 & G2 & Fr2).
     set (cid := List.length (store s1)) in *.
     assert (Fresh : ~ In cid (ids_of (view s2))) by (rewrite V2; apply fresh_not_in_view, W1).
-    destruct (set_constraint_spec abort cid (pchild pa szf) n s2 W2 Hn0 ltac:(lia)) as (s3 & E3 & I3 & L3 & V3 & W3 & Len3 & G3 & G3').
+    destruct (set_constraint_spec abort cid (pchild pa szf) n s2 W2 Hn0 ltac:(lia)) as (s3 & E3 & I3 & L3 & V3 & W3 & Len3 & G3 & G3' & Fr3).
     { rewrite V2, V1. apply Forall_forall. intros e He. right. unfold fits in F2. rewrite Forall_forall in F2. apply F2, He. }
     rewrite (map_set_entry_fresh cid n _ Fresh) in V3.
     assert (NotListed : ~ In cid (lst s3)).
     { rewrite L3, L2. intros Hx. destruct W1 as [_ AL]. rewrite Forall_forall in AL. specialize (AL _ Hx). unfold cid in AL. lia. }
-    destruct (append_lst_spec cid s3 W3 NotListed ltac:(lia)) as (s4 & E4 & I4 & St4 & V4 & W4).
+    destruct (append_lst_spec cid s3 W3 NotListed ltac:(lia)) as (s4 & E4 & I4 & St4 & V4 & W4 & Fr4).
     { rewrite G3, G2. reflexivity. }
     assert (Ent : entry_of s3 cid = (cid, Some n, 0)) by (unfold entry_of; rewrite G3, G2; reflexivity).
     rewrite Ent, V3, V2, V1 in V4.
@@ -200,13 +217,13 @@ Section Elems.
     assert (Es4 : ext s4r rest' = s4).
     { unfold ext, s4r. cbn [inp store lst]. destruct s4 as [i4 st4 l4]. cbn [inp store lst] in *. f_equal. congruence. }
     rewrite Es4 in Parr.
-    destruct Parr as (tr5 & s5 & a5 & c5 & E5 & Sh5 & Ic5 & I5 & V5 & W5 & Pa5).
+    destruct Parr as (tr5 & s5 & a5 & c5 & E5 & Sh5 & Ic5 & I5 & V5 & W5 & Fr5 & Pa5).
     assert (Lc5 : blen c5 = n).
     { assert (inp s4 = region ++ rest') by congruence. rewrite H in Ic5. apply (f_equal (@List.length Z)) in Ic5.
       rewrite !app_length in Ic5. unfold blen in *. lia. }
     rewrite Lc5, V4, bump_app, bump_bump in V5. cbn [bump map bump_entry] in V5. rewrite Z.add_0_l in V5.
     (* 4. the region is exactly filled *)
-    destruct (assert_done_spec abort cid n (bump (pwidth szp + n) (view s)) s5 W5 V5) as (s6 & E6 & I6 & L6 & V6 & W6 & _).
+    destruct (assert_done_spec abort cid n (bump (pwidth szp + n) (view s)) s5 W5 V5) as (s6 & E6 & I6 & L6 & V6 & W6 & _ & Fr6 & _).
     { rewrite ids_bump. intros Hx. apply Fresh. rewrite V2, V1, ids_bump. exact Hx. }
     (* assemble *)
     exists (sev pa (TyN name) :: tr1 ++ tr5), s6, (Some (VStruct_ (TyN name) [(szf, Some (VInt_ (pname szp) n)); (buf, a5)])), (c1 ++ c5).
@@ -217,7 +234,7 @@ Section Elems.
     - split.
       + cbn [items_of flat_map]. rewrite app_nil_r. apply (sh_node pa (TyN name)). apply shape_app; assumption.
       + split; [rewrite Ic1, <- I1; cbn; rewrite <- app_assoc; f_equal; congruence|].
-        split; [congruence|]. split; [|split; [exact W6|reflexivity]].
+        split; [congruence|]. split; [|split; [exact W6|split; [exact (frame_chain _ _ _ _ _ _ _ cid Fr1 Fr2 eq_refl Fr3 Fr4 Fr5 Fr6)|reflexivity]]].
         rewrite V6. f_equal. unfold blen in *. rewrite app_length. lia.
   Qed.
 End Elems.
@@ -359,7 +376,7 @@ Section Main.
   Definition Sim_fields_at (fs : fields) : Prop := forall pa rs rd bs kids rest s,
     sp_fields T fs pa rs bs = Some (kids, rest) -> forallb (ok_leaves abort) kids = true -> R rs rd -> wf_st s -> inp s = bs ->
     fits (view s) (blen bs - blen rest) ->
-    ok_run (dec_fields T abort fs pa rd) s (flat_map items_of kids) rest (fun _ => True).
+    ok_run (dec_fields T abort fs pa rd) s (flat_map items_of kids) rest (fun vals => R (rev (map kid_info kids) ++ rs) vals).
   Definition Sim_fields (fs : fields) : Prop :=
     Sim_fields_at fs /\ match fs with FPlain _ _ r => Sim_fields_at r | _ => True end.
 
@@ -537,6 +554,96 @@ Section Main.
   Lemma val_ok_node pa t kids a : as_typed_int a = None -> val_ok (SNode pa t kids) a.
   Proof. intros H. exact H. Qed.
 
+  (** the root of a specified value sits at the path it was read for *)
+  Lemma sp_tpm2b_list_path name szf buf szp lid f pa bs v rest :
+    sp_tpm2b_list name szf buf szp lid f pa bs = Some (v, rest) -> exists kids, v = SNode pa (TyN name) kids.
+  Proof.
+    unfold sp_tpm2b_list. destruct (sp_prim szp _ bs) as [[[szv n] r1]|]; [|discriminate].
+    destruct (split_at n r1) as [[region rest']|]; [|discriminate].
+    destruct (sp_counted _ _ _ _ _) as [[lv [|x xs]]|]; try discriminate. intros [= <- _]. eexists; reflexivity.
+  Qed.
+
+  Lemma sp_ty_path t pa sel enc bs v r : sp_ty T t pa sel enc bs = Some (v, r) -> sv_path v = pa.
+  Proof.
+    destruct t as [p|name isparams fs|name szf buf szp elem|name szf buf szp inner|name ar].
+    - rewrite sp_ty_prim. destruct (sp_prim p pa bs) as [[[v0 z] r0]|] eqn:Ep; [|discriminate]. intros [= <- _].
+      destruct (sp_prim_some _ _ _ _ _ _ Ep) as (h & _ & _ & _ & _ & ->). reflexivity.
+    - rewrite sp_ty_struct. destruct (enc && isparams && first_is_tpm2b fs).
+      + destruct fs as [|n t r0|n e r0|n sl u r0]; try discriminate.
+        destruct (sp_enc_param T (pchild pa n) bs) as [[v0 r1]|]; [|discriminate].
+        destruct (sp_fields T r0 pa _ r1) as [[kids r2]|]; [|discriminate]. intros [= <- _]. reflexivity.
+      + destruct (sp_fields T fs pa [] bs) as [[kids r0]|]; [|discriminate]. intros [= <- _]. reflexivity.
+    - rewrite sp_ty_tpm2b_list. intros H. destruct (sp_tpm2b_list_path _ _ _ _ _ _ _ _ _ _ H) as [kids ->]. reflexivity.
+    - rewrite sp_ty_tpm2b_struct. destruct (sp_prim szp _ bs) as [[[szv n] r1]|]; [|discriminate].
+      destruct (n =? 0); [intros [= <- _]; reflexivity|].
+      destruct (split_at n r1) as [[region rest']|]; [|discriminate].
+      destruct (sp_ty T inner _ None false region) as [[iv [|x xs]]|]; try discriminate. intros [= <- _]. reflexivity.
+    - rewrite sp_ty_union. destruct (select_arm ar sel) as [[n ap]|]; [|discriminate].
+      destruct (sp_arms T ar pa n bs) as [[kids r0]|]; [|discriminate]. intros [= <- _]. reflexivity.
+  Qed.
+
+  Lemma last_name_child pa n : last_name (pchild pa n) = n.
+  Proof. unfold last_name, pchild. rewrite rev_app_distr. reflexivity. Qed.
+
+  Lemma kid_info_at v pa n : sv_path v = pchild pa n ->
+    kid_info v = (n, match v with SPrim _ p z => Some (pname p, z) | _ => None end).
+  Proof. intros H. unfold kid_info. rewrite H, last_name_child. destruct v; reflexivity. Qed.
+
+  Lemma R_snoc_kid kids k rs vals : R (rev (map kid_info kids) ++ kid_info k :: rs) vals -> R (rev (map kid_info (k :: kids)) ++ rs) vals.
+  Proof. cbn [map rev]. rewrite <- app_assoc. exact (fun H => H). Qed.
+
+  (** a structure's by-product value: its fields in order, primitive fields carrying the specified values *)
+  Definition struct_post (v : sv) (a : option value) : Prop :=
+    match v with
+    | SNode _ tid kids => exists vals, a = Some (VStruct_ tid (rev vals)) /\ R (rev (map kid_info kids)) vals
+    | SPrim _ _ _ => False
+    end.
+
+  Lemma struct_case name isparams fs : Sim_fields fs -> forall pa sel enc bs v rest s,
+    sp_ty T (TStruct name isparams fs) pa sel enc bs = Some (v, rest) -> ok_leaves abort v = true -> wf_st s -> inp s = bs ->
+    blen rest <= blen bs -> fits (view s) (blen bs - blen rest) ->
+    ok_run (dec_ty T abort (TStruct name isparams fs) pa sel enc) s (items_of v) rest (struct_post v).
+  Proof.
+      intros [IHf IHt] pa sel enc bs v rest s H AV W I L F. rewrite sp_ty_struct in H. rewrite dec_ty_struct. cbv zeta.
+      destruct (enc && isparams && first_is_tpm2b fs) eqn:UE.
+      + destruct fs as [|n t r|n e r|n sl u r]; try discriminate.
+        destruct (sp_enc_param T (pchild pa n) bs) as [[v0 r1]|] eqn:Ee; [|discriminate].
+        destruct (sp_fields T r pa [(n, None)] r1) as [[kids r2]|] eqn:Ef; [|discriminate]. injection H as <- <-.
+        cbn [ok_leaves forallb] in AV. apply andb_prop in AV as [AV0 AVk].
+        assert (L1 : blen r1 <= blen bs).
+        { unfold sp_enc_param in Ee. destruct (t_enc_param T) as [| |? ? ? ? [ep| | | |]| |]; try discriminate.
+          eapply sp_tpm2b_list_len. exact Ee. }
+        assert (K0 : kid_info v0 = (n, None)).
+        { unfold sp_enc_param in Ee. destruct (t_enc_param T) as [| |? ? ? ? [ep| | | |]| |]; try discriminate.
+          destruct (sp_tpm2b_list_path _ _ _ _ _ _ _ _ _ _ Ee) as [ks ->]. unfold kid_info. cbn [sv_path]. rewrite last_name_child. reflexivity. }
+        pose proof (sp_fields_len _ _ _ _ _ _ Ef) as L2.
+        destruct (fits_split (view s) (blen bs - blen r1) (blen r1 - blen r2) ltac:(lia) ltac:(lia)
+                    ltac:(replace (blen bs - blen r1 + (blen r1 - blen r2)) with (blen bs - blen r2) by lia; exact F)) as [F1 F2].
+        replace (items_of (SNode pa (TyEnc name) (v0 :: kids)))
+          with ([INode pa (TyEnc name)] ++ ((items_of v0 ++ flat_map items_of kids) ++ [])) by (cbn [items_of flat_map app]; rewrite app_nil_r; reflexivity).
+        apply ok_bind with (mid := inp s) (P := fun _ => True); [apply ok_sev; exact W|]. intros s1 _ W1 I1 V1 _.
+        apply ok_bind with (mid := r2) (P := fun vals => R (rev (map kid_info (v0 :: kids)) ++ []) vals).
+        * apply ok_bind with (mid := r1) (P := fun a => as_typed_int a = None).
+          -- apply (enc_param_sim _ _ _ _ _ Ee AV0 W1 ltac:(congruence)).
+             rewrite V1, I. replace (blen bs - blen bs) with 0 by lia. rewrite bump_0. exact F1.
+          -- intros s2 a W2 I2 V2 Ha. eapply ok_weaken; [|apply (IHt pa [(n, None)] [(n, a)] r1 kids r2 s2 Ef AVk); [|exact W2|exact I2|]].
+             ++ intros vals HRv. apply R_snoc_kid. rewrite K0. exact HRv.
+             ++ constructor; [split; [reflexivity|exact Ha]|constructor].
+             ++ rewrite V2, I1, V1, I. replace (blen bs - blen bs) with 0 by lia. rewrite bump_0. exact F2.
+        * intros s3 vals W3 I3 V3 HRv. apply ok_ret'; [exact W3|exact I3|]. cbn [struct_post]. exists vals.
+          split; [reflexivity|]. rewrite app_nil_r in HRv. exact HRv.
+      + destruct (sp_fields T fs pa [] bs) as [[kids r]|] eqn:Ef; [|discriminate]. injection H as <- <-.
+        cbn [ok_leaves] in AV.
+        replace (items_of (SNode pa (TyN name) kids))
+          with ([INode pa (TyN name)] ++ (flat_map items_of kids ++ [])) by (cbn [items_of app]; rewrite app_nil_r; reflexivity).
+        apply ok_bind with (mid := inp s) (P := fun _ => True); [apply ok_sev; exact W|]. intros s1 _ W1 I1 V1 _.
+        apply ok_bind with (mid := r) (P := fun vals => R (rev (map kid_info kids) ++ []) vals).
+        * apply (IHf pa [] [] bs kids r s1 Ef AV ltac:(constructor) W1 ltac:(congruence)).
+          rewrite V1, I. replace (blen bs - blen bs) with 0 by lia. rewrite bump_0. exact F.
+        * intros s3 vals W3 I3 V3 HRv. apply ok_ret'; [exact W3|exact I3|]. cbn [struct_post]. exists vals.
+          split; [reflexivity|]. rewrite app_nil_r in HRv. exact HRv.
+  Qed.
+
   Theorem sim_all : (forall t, Sim_ty t) /\ (forall fs, Sim_fields fs) /\ (forall ar, Sim_arms ar) /\ (forall p, Sim_armp p).
   Proof.
     apply ty_mutind.
@@ -546,39 +653,10 @@ Section Main.
       destruct (sp_prim_some _ _ _ _ _ _ Ep) as (h & _ & _ & _ & _ & Hv). subst v0. cbn [ok_leaves] in AV.
       eapply ok_weaken; [|apply (sim_prim abort p pa bs _ z r s Ep AV W I F)]. intros a ->. reflexivity.
     - (* TStruct *)
-      intros name isparams fs [IHf IHt] pa sel enc bs v rest s H AV W I L F. rewrite sp_ty_struct in H. rewrite dec_ty_struct. cbv zeta.
-      destruct (enc && isparams && first_is_tpm2b fs) eqn:UE.
-      + destruct fs as [|n t r|n e r|n sl u r]; try discriminate.
-        destruct (sp_enc_param T (pchild pa n) bs) as [[v0 r1]|] eqn:Ee; [|discriminate].
-        destruct (sp_fields T r pa [(n, None)] r1) as [[kids r2]|] eqn:Ef; [|discriminate]. injection H as <- <-.
-        cbn [ok_leaves forallb] in AV. apply andb_prop in AV as [AV0 AVk].
-        pose proof (sp_tpm2b_list_len_enc := I).
-        assert (L1 : blen r1 <= blen bs).
-        { unfold sp_enc_param in Ee. destruct (t_enc_param T) as [| |? ? ? ? [ep| | | |]| |]; try discriminate.
-          eapply sp_tpm2b_list_len. exact Ee. }
-        pose proof (sp_fields_len _ _ _ _ _ _ Ef) as L2.
-        destruct (fits_split (view s) (blen bs - blen r1) (blen r1 - blen r2) ltac:(lia) ltac:(lia)
-                    ltac:(replace (blen bs - blen r1 + (blen r1 - blen r2)) with (blen bs - blen r2) by lia; exact F)) as [F1 F2].
-        replace (items_of (SNode pa (TyEnc name) (v0 :: kids)))
-          with ([INode pa (TyEnc name)] ++ ((items_of v0 ++ flat_map items_of kids) ++ [])) by (cbn [items_of flat_map app]; rewrite app_nil_r; reflexivity).
-        apply ok_bind with (mid := inp s) (P := fun _ => True); [apply ok_sev; exact W|]. intros s1 _ W1 I1 V1 _.
-        apply ok_bind with (mid := r2) (P := fun _ => True).
-        * apply ok_bind with (mid := r1) (P := fun a => as_typed_int a = None).
-          -- apply (enc_param_sim _ _ _ _ _ Ee AV0 W1 ltac:(congruence)).
-             rewrite V1, I. replace (blen bs - blen bs) with 0 by lia. rewrite bump_0. exact F1.
-          -- intros s2 a W2 I2 V2 Ha. apply (IHt pa [(n, None)] [(n, a)] r1 kids r2 s2 Ef AVk); [|exact W2|exact I2|].
-             ++ constructor; [split; [reflexivity|exact Ha]|constructor].
-             ++ rewrite V2, I1, V1, I. replace (blen bs - blen bs) with 0 by lia. rewrite bump_0. exact F2.
-        * intros s3 vals W3 I3 V3 _. apply ok_ret'; [exact W3|exact I3|reflexivity].
-      + destruct (sp_fields T fs pa [] bs) as [[kids r]|] eqn:Ef; [|discriminate]. injection H as <- <-.
-        cbn [ok_leaves] in AV.
-        replace (items_of (SNode pa (TyN name) kids))
-          with ([INode pa (TyN name)] ++ (flat_map items_of kids ++ [])) by (cbn [items_of app]; rewrite app_nil_r; reflexivity).
-        apply ok_bind with (mid := inp s) (P := fun _ => True); [apply ok_sev; exact W|]. intros s1 _ W1 I1 V1 _.
-        apply ok_bind with (mid := r) (P := fun _ => True).
-        * apply (IHf pa [] [] bs kids r s1 Ef AV ltac:(constructor) W1 ltac:(congruence)).
-          rewrite V1, I. replace (blen bs - blen bs) with 0 by lia. rewrite bump_0. exact F.
-        * intros s3 vals W3 I3 V3 _. apply ok_ret'; [exact W3|exact I3|reflexivity].
+      intros name isparams fs IH pa sel enc bs v rest s H AV W I L F.
+      eapply ok_weaken; [|apply (struct_case name isparams fs IH pa sel enc bs v rest s H AV W I L F)].
+      intros a Ha. destruct v as [? ? ?|pa0 tid kids]; cbn [struct_post] in Ha; [contradiction|].
+      destruct Ha as (vals & -> & _). reflexivity.
     - (* TTpm2bList *)
       intros name szf buf szp elem IH pa sel enc bs v rest s H AV W I L F. rewrite sp_ty_tpm2b_list in H. rewrite dec_ty_tpm2b_list.
       assert (Hv : exists kids, v = SNode pa (TyN name) kids).
@@ -602,25 +680,25 @@ Section Main.
         rewrite HN in F.
         assert (P1 : ok_run (dec_prim abort szp (pchild pa szf)) s (items_of szv) r1 (fun a => a = Some (VInt_ (pname szp) 0))).
         { apply (sim_prim abort szp (pchild pa szf) bs szv 0 r1 s Ep Vs W I). rewrite HN. exact F. }
-        destruct P1 as (tr1 & s1 & a1 & c1 & E1 & Sh1 & Ic1 & I1 & V1 & W1 & ->).
+        destruct P1 as (tr1 & s1 & a1 & c1 & E1 & Sh1 & Ic1 & I1 & V1 & W1 & Fr1 & ->).
         assert (Lc1 : blen c1 = pwidth szp).
         { rewrite I, Hbs in Ic1. apply (f_equal (@List.length Z)) in Ic1. rewrite !app_length in Ic1. unfold blen in *. lia. }
         rewrite Lc1 in V1.
-        destruct (new_sc_spec s1 W1) as (s2 & E2 & I2 & L2 & V2 & W2 & Len2 & G2).
+        destruct (new_sc_spec s1 W1) as (s2 & E2 & I2 & L2 & V2 & W2 & Len2 & G2 & Fr2).
         set (cid := List.length (store s1)) in *.
         assert (Fresh : ~ In cid (ids_of (view s2))) by (rewrite V2; apply fresh_not_in_view, W1).
-        destruct (set_constraint_spec abort cid (pchild pa szf) 0 s2 W2 ltac:(lia) ltac:(lia)) as (s3 & E3 & I3 & L3 & V3 & W3 & Len3 & G3 & G3').
+        destruct (set_constraint_spec abort cid (pchild pa szf) 0 s2 W2 ltac:(lia) ltac:(lia)) as (s3 & E3 & I3 & L3 & V3 & W3 & Len3 & G3 & G3' & Fr3).
         { rewrite V2, V1. apply Forall_forall. intros e He. right.
           assert (F0 : fits (bump (pwidth szp) (view s)) 0) by (apply (fits_split (view s) (pwidth szp) 0 Hw ltac:(lia)); rewrite Z.add_0_r; exact F).
           unfold fits in F0. rewrite Forall_forall in F0. apply F0, He. }
         rewrite (map_set_entry_fresh cid 0 _ Fresh) in V3.
         assert (NotListed : ~ In cid (lst s3)).
         { rewrite L3, L2. intros Hx. destruct W1 as [_ AL]. rewrite Forall_forall in AL. specialize (AL _ Hx). unfold cid in AL. lia. }
-        destruct (append_lst_spec cid s3 W3 NotListed ltac:(lia)) as (s4 & E4 & I4 & St4 & V4 & W4).
+        destruct (append_lst_spec cid s3 W3 NotListed ltac:(lia)) as (s4 & E4 & I4 & St4 & V4 & W4 & Fr4).
         { rewrite G3, G2. reflexivity. }
         assert (Ent : entry_of s3 cid = (cid, Some 0, 0)) by (unfold entry_of; rewrite G3, G2; reflexivity).
         rewrite Ent, V3, V2, V1 in V4.
-        destruct (assert_done_spec abort cid 0 (bump (pwidth szp) (view s)) s4 W4 V4) as (s6 & E6 & I6 & L6 & V6 & W6 & _).
+        destruct (assert_done_spec abort cid 0 (bump (pwidth szp) (view s)) s4 W4 V4) as (s6 & E6 & I6 & L6 & V6 & W6 & _ & Fr6 & _).
         { rewrite ids_bump. intros Hx. apply Fresh. rewrite V2, V1, ids_bump. exact Hx. }
         exists (sev pa (TyN name) :: tr1 ++ [sev (pchild pa buf) (ty_id inner)]), s6,
                (Some (VStruct_ (TyN name) [(szf, Some (VInt_ (pname szp) 0)); (buf, None)])), c1.
@@ -632,7 +710,7 @@ Section Main.
           -- cbn [items_of flat_map]. rewrite app_nil_r. apply (sh_node pa (TyN name)).
              replace (items_of szv ++ [INode (pchild pa buf) (ty_id inner)]) with (items_of szv ++ [INode (pchild pa buf) (ty_id inner)]) by reflexivity.
              apply shape_app; [exact Sh1|]. apply (sh_node (pchild pa buf) (ty_id inner)). constructor.
-          -- split; [exact Ic1|]. split; [congruence|]. split; [|split; [exact W6|reflexivity]].
+          -- split; [exact Ic1|]. split; [congruence|]. split; [|split; [exact W6|split; [exact (frame_chain _ _ _ _ _ _ _ cid Fr1 Fr2 eq_refl Fr3 Fr4 (frame_refl s4) Fr6)|reflexivity]]].
              rewrite V6, Lc1. reflexivity.
       + (* structured payload in its region *)
         apply Z.eqb_neq in Hn0.
@@ -648,19 +726,19 @@ Section Main.
         assert (P1 : ok_run (dec_prim abort szp (pchild pa szf)) s (items_of szv) r1 (fun a => a = Some (VInt_ (pname szp) n))).
         { apply (sim_prim abort szp (pchild pa szf) bs szv n r1 s Ep Vs W I).
           replace (blen bs - blen r1) with (pwidth szp) by (rewrite Hbs; unfold blen in *; rewrite app_length; lia). exact F1. }
-        destruct P1 as (tr1 & s1 & a1 & c1 & E1 & Sh1 & Ic1 & I1 & V1 & W1 & ->).
+        destruct P1 as (tr1 & s1 & a1 & c1 & E1 & Sh1 & Ic1 & I1 & V1 & W1 & Fr1 & ->).
         assert (Lc1 : blen c1 = pwidth szp).
         { rewrite I, Hbs in Ic1. apply (f_equal (@List.length Z)) in Ic1. rewrite !app_length in Ic1. unfold blen in *. lia. }
         rewrite Lc1 in V1.
-        destruct (new_sc_spec s1 W1) as (s2 & E2 & I2 & L2 & V2 & W2 & Len2 & G2).
+        destruct (new_sc_spec s1 W1) as (s2 & E2 & I2 & L2 & V2 & W2 & Len2 & G2 & Fr2).
         set (cid := List.length (store s1)) in *.
         assert (Fresh : ~ In cid (ids_of (view s2))) by (rewrite V2; apply fresh_not_in_view, W1).
-        destruct (set_constraint_spec abort cid (pchild pa szf) n s2 W2 Hnn ltac:(lia)) as (s3 & E3 & I3 & L3 & V3 & W3 & Len3 & G3 & G3').
+        destruct (set_constraint_spec abort cid (pchild pa szf) n s2 W2 Hnn ltac:(lia)) as (s3 & E3 & I3 & L3 & V3 & W3 & Len3 & G3 & G3' & Fr3).
         { rewrite V2, V1. apply Forall_forall. intros e He. right. unfold fits in F2. rewrite Forall_forall in F2. apply F2, He. }
         rewrite (map_set_entry_fresh cid n _ Fresh) in V3.
         assert (NotListed : ~ In cid (lst s3)).
         { rewrite L3, L2. intros Hx. destruct W1 as [_ AL]. rewrite Forall_forall in AL. specialize (AL _ Hx). unfold cid in AL. lia. }
-        destruct (append_lst_spec cid s3 W3 NotListed ltac:(lia)) as (s4 & E4 & I4 & St4 & V4 & W4).
+        destruct (append_lst_spec cid s3 W3 NotListed ltac:(lia)) as (s4 & E4 & I4 & St4 & V4 & W4 & Fr4).
         { rewrite G3, G2. reflexivity. }
         assert (Ent : entry_of s3 cid = (cid, Some n, 0)) by (unfold entry_of; rewrite G3, G2; reflexivity).
         rewrite Ent, V3, V2, V1 in V4.
@@ -674,12 +752,12 @@ Section Main.
         assert (Es4 : ext s4r rest' = s4).
         { unfold ext, s4r. cbn [inp store lst]. destruct s4 as [i4 st4 l4]. cbn [inp store lst] in *. f_equal. congruence. }
         rewrite Es4 in Pin.
-        destruct Pin as (tr5 & s5 & a5 & c5 & E5 & Sh5 & Ic5 & I5 & V5 & W5 & Pa5).
+        destruct Pin as (tr5 & s5 & a5 & c5 & E5 & Sh5 & Ic5 & I5 & V5 & W5 & Fr5 & Pa5).
         assert (Lc5 : blen c5 = n).
         { assert (Hi4 : inp s4 = region ++ rest') by congruence. rewrite Hi4 in Ic5. apply (f_equal (@List.length Z)) in Ic5.
           rewrite !app_length in Ic5. unfold blen in *. lia. }
         rewrite Lc5, V4, bump_app, bump_bump in V5. cbn [bump map bump_entry] in V5. rewrite Z.add_0_l in V5.
-        destruct (assert_done_spec abort cid n (bump (pwidth szp + n) (view s)) s5 W5 V5) as (s6 & E6 & I6 & L6 & V6 & W6 & _).
+        destruct (assert_done_spec abort cid n (bump (pwidth szp + n) (view s)) s5 W5 V5) as (s6 & E6 & I6 & L6 & V6 & W6 & _ & Fr6 & _).
         { rewrite ids_bump. intros Hx. apply Fresh. rewrite V2, V1, ids_bump. exact Hx. }
         exists (sev pa (TyN name) :: tr1 ++ tr5), s6, (Some (VStruct_ (TyN name) [(szf, Some (VInt_ (pname szp) n)); (buf, a5)])), (c1 ++ c5).
         split.
@@ -691,7 +769,7 @@ Section Main.
         * split.
           -- cbn [items_of flat_map]. rewrite app_nil_r. apply (sh_node pa (TyN name)). apply shape_app; assumption.
           -- split; [rewrite Ic1, <- I1; cbn; rewrite <- app_assoc; f_equal; congruence|].
-             split; [congruence|]. split; [|split; [exact W6|reflexivity]].
+             split; [congruence|]. split; [|split; [exact W6|split; [exact (frame_chain _ _ _ _ _ _ _ cid Fr1 Fr2 eq_refl Fr3 Fr4 Fr5 Fr6)|reflexivity]]].
              rewrite V6. f_equal. unfold blen in *. rewrite app_length. lia.
     - (* TUnion *)
       intros name ar IH pa sel enc bs v rest s H AV W I L F. rewrite sp_ty_union in H. rewrite dec_ty_union.
@@ -704,7 +782,7 @@ Section Main.
       rewrite V1, I. replace (blen bs - blen bs) with 0 by lia. rewrite bump_0. exact F.
     - (* FNil *)
       split; [|exact Logic.I]. intros pa rs rd bs kids rest s H AV HR W I F. cbn [sp_fields dec_fields] in *.
-      injection H as <- <-. apply ok_ret'; [exact W|exact I|exact Logic.I].
+      injection H as <- <-. apply ok_ret'; [exact W|exact I|exact HR].
     - (* FPlain *)
       intros n t IHt r [IHr _]. split; [|exact IHr]. intros pa rs rd bs kids rest s H AV HR W I F.
       rewrite sp_fields_plain in H. rewrite dec_fields_plain.
@@ -717,8 +795,9 @@ Section Main.
                   ltac:(replace (blen bs - blen r1 + (blen r1 - blen r2)) with (blen bs - blen r2) by lia; exact F)) as [F1 F2].
       cbn [flat_map]. apply ok_bind with (mid := r1) (P := val_ok v).
       + apply (IHt (pchild pa n) None false bs v r1 s Hs AV1 W I L1 F1).
-      + intros s1 a W1 I1 V1 Ha. apply (IHr pa _ ((n, a) :: rd) r1 vs r2 s1 Ef AV2); [|exact W1|exact I1|rewrite V1, I; exact F2].
-        constructor; [|exact HR]. split; [reflexivity|]. cbn [snd]. destruct v as [? p z|? ? ?]; cbn [val_ok] in Ha; [exact Ha|exact Ha].
+      + intros s1 a W1 I1 V1 Ha. eapply ok_weaken; [|apply (IHr pa _ ((n, a) :: rd) r1 vs r2 s1 Ef AV2); [|exact W1|exact I1|rewrite V1, I; exact F2]].
+        * intros vals HRv. apply R_snoc_kid. rewrite (kid_info_at v pa n (sp_ty_path _ _ _ _ _ _ _ Hs)). exact HRv.
+        * constructor; [|exact HR]. split; [reflexivity|]. cbn [snd]. destruct v as [? p z|? ? ?]; cbn [val_ok] in Ha; [exact Ha|exact Ha].
     - (* FList *)
       intros n elem IHe r [IHr _]. split; [|exact Logic.I]. intros pa rs rd bs kids rest s H AV HR W I F.
       rewrite sp_fields_list in H. rewrite dec_fields_list.
@@ -733,8 +812,14 @@ Section Main.
       cbn [flat_map]. apply ok_bind with (mid := r1) (P := fun a => as_typed_int a = None).
       + apply (array_sim abort (fun p b => sp_ty T elem p None false b) (fun p => dec_ty T abort elem p None false)) with (bs := bs); try assumption.
         intros p b v0 r0 s0 Hf AV0 W0 I0 L0 F0. eapply ok_weaken; [|apply (IHe p None false b v0 r0 s0 Hf AV0 W0 I0 L0 F0)]. intros; exact Logic.I.
-      + intros s1 a W1 I1 V1 Ha. apply (IHr pa _ ((n, a) :: rd) r1 vs r2 s1 Ef AV2); [|exact W1|exact I1|rewrite V1, I; exact F2].
-        constructor; [|exact HR]. split; [reflexivity|exact Ha].
+      + intros s1 a W1 I1 V1 Ha. eapply ok_weaken; [|apply (IHr pa _ ((n, a) :: rd) r1 vs r2 s1 Ef AV2); [|exact W1|exact I1|rewrite V1, I; exact F2]].
+        * intros vals HRv. apply R_snoc_kid.
+          assert (Hk : kid_info v = (n, None)).
+          { unfold sp_counted in Hs. destruct (Z.of_nat (List.length bs) <? c); [discriminate|].
+            destruct (sp_elems _ _ _ _ _) as [[es re]|]; [|discriminate]. injection Hs as <- _.
+            unfold kid_info. cbn [sv_path]. rewrite last_name_child. reflexivity. }
+          rewrite Hk. exact HRv.
+        * constructor; [|exact HR]. split; [reflexivity|exact Ha].
     - (* FUnion *)
       intros n seln u IHu r [IHr _]. split; [|exact Logic.I]. intros pa rs rd bs kids rest s H AV HR W I F.
       rewrite sp_fields_union in H. rewrite dec_fields_union.
@@ -748,8 +833,9 @@ Section Main.
                   ltac:(replace (blen bs - blen r1 + (blen r1 - blen r2)) with (blen bs - blen r2) by lia; exact F)) as [F1 F2].
       cbn [flat_map]. apply ok_bind with (mid := r1) (P := val_ok v).
       + apply (IHu (pchild pa n) (Some tz) false bs v r1 s Hs AV1 W I L1 F1).
-      + intros s1 a W1 I1 V1 Ha. apply (IHr pa _ ((n, a) :: rd) r1 vs r2 s1 Ef AV2); [|exact W1|exact I1|rewrite V1, I; exact F2].
-        constructor; [|exact HR]. split; [reflexivity|]. cbn [snd]. destruct v as [? p z|? ? ?]; cbn [val_ok] in Ha; [exact Ha|exact Ha].
+      + intros s1 a W1 I1 V1 Ha. eapply ok_weaken; [|apply (IHr pa _ ((n, a) :: rd) r1 vs r2 s1 Ef AV2); [|exact W1|exact I1|rewrite V1, I; exact F2]].
+        * intros vals HRv. apply R_snoc_kid. rewrite (kid_info_at v pa n (sp_ty_path _ _ _ _ _ _ _ Hs)). exact HRv.
+        * constructor; [|exact HR]. split; [reflexivity|]. cbn [snd]. destruct v as [? p z|? ? ?]; cbn [val_ok] in Ha; [exact Ha|exact Ha].
     - (* ANil *) intros uname pa target bs kids rest s H. discriminate.
     - (* ACons *)
       intros n key p IHp r IHr uname pa target bs kids rest s H AV W I F.
@@ -772,5 +858,37 @@ Section Main.
     - exact Logic.I.
     - intros t IH. exact IH.
     - intros elem IH n. exact IH.
+  Qed.
+  (** the by-product value of a structure (after the induction) *)
+  Lemma struct_value_sim name isparams fs pa sel enc bs v rest s :
+    sp_ty T (TStruct name isparams fs) pa sel enc bs = Some (v, rest) -> ok_leaves abort v = true -> wf_st s -> inp s = bs ->
+    blen rest <= blen bs -> fits (view s) (blen bs - blen rest) ->
+    ok_run (dec_ty T abort (TStruct name isparams fs) pa sel enc) s (items_of v) rest (struct_post v).
+  Proof. apply struct_case. apply sim_all. Qed.
+
+  Lemma sp_ty_len t pa sel enc bs v r : sp_ty T t pa sel enc bs = Some (v, r) -> blen r <= blen bs.
+  Proof.
+    destruct t as [p|name isparams fs|name szf buf szp elem|name szf buf szp inner|name ar].
+    - rewrite sp_ty_prim. destruct (sp_prim p pa bs) as [[[v0 z] r0]|] eqn:Ep; [|discriminate]. intros [= _ <-].
+      destruct (sp_prim_some _ _ _ _ _ _ Ep) as (h & -> & _). unfold blen. rewrite app_length. lia.
+    - rewrite sp_ty_struct. destruct (enc && isparams && first_is_tpm2b fs).
+      + destruct fs as [|n t r0|n e r0|n sl u r0]; try discriminate.
+        destruct (sp_enc_param T (pchild pa n) bs) as [[v0 r1]|] eqn:Ee; [|discriminate].
+        destruct (sp_fields T r0 pa _ r1) as [[kids r2]|] eqn:Ef; [|discriminate]. intros [= _ <-].
+        pose proof (sp_fields_len _ _ _ _ _ _ Ef). unfold sp_enc_param in Ee.
+        destruct (t_enc_param T) as [| |? ? ? ? [ep| | | |]| |]; try discriminate.
+        pose proof (sp_tpm2b_list_len _ _ _ _ _ _ _ _ _ _ Ee). lia.
+      + destruct (sp_fields T fs pa [] bs) as [[kids r0]|] eqn:Ef; [|discriminate]. intros [= _ <-].
+        exact (sp_fields_len _ _ _ _ _ _ Ef).
+    - rewrite sp_ty_tpm2b_list. apply sp_tpm2b_list_len.
+    - rewrite sp_ty_tpm2b_struct. destruct (sp_prim szp _ bs) as [[[szv n] r1]|] eqn:Ep; [|discriminate].
+      destruct (sp_prim_some _ _ _ _ _ _ Ep) as (h & -> & _).
+      destruct (n =? 0); [intros [= _ <-]; unfold blen; rewrite app_length; lia|].
+      destruct (split_at n r1) as [[region rest']|] eqn:Es; [|discriminate].
+      destruct (sp_ty T inner _ None false region) as [[iv [|x xs]]|]; try discriminate. intros [= _ <-].
+      destruct (split_at_some _ _ _ _ Es) as (-> & _). unfold blen. rewrite !app_length. lia.
+    - rewrite sp_ty_union. destruct (select_arm ar sel) as [[n ap]|]; [|discriminate].
+      destruct (sp_arms T ar pa n bs) as [[kids r0]|] eqn:Ea; [|discriminate]. intros [= _ <-].
+      exact (sp_arms_len _ _ _ _ _ _ Ea).
   Qed.
 End Main.
